@@ -264,7 +264,14 @@ def _generate_module(mod: dict, work_dir: pathlib.Path, pdlc: pathlib.Path, pdlc
     _write_if_changed(pdl_path, pdl_text)
 
     gen_dir = work_dir / "gen"
-    key = hashlib.sha256(json.dumps([pdlc_stamp, pdl_text, exclude], sort_keys=True).encode()).hexdigest()
+    via = mod.get("via", "pdlc")
+    extra_inputs = ""
+    if via != "pdlc":
+        # what the macro does is decided by pdl-derive's own source as well
+        for q in sorted((REPO / "pdl-derive").rglob("*")):
+            if q.is_file() and q.suffix in (".rs", ".toml"):
+                extra_inputs += hashlib.sha256(q.read_bytes()).hexdigest()
+    key = hashlib.sha256(json.dumps([pdlc_stamp, pdl_text, exclude, via, extra_inputs], sort_keys=True).encode()).hexdigest()
     cache = gen_dir / (name + ".json")
     try:
         cached = json.loads(cache.read_text())
@@ -286,7 +293,16 @@ def _generate_module(mod: dict, work_dir: pathlib.Path, pdlc: pathlib.Path, pdlc
             res["types"] = types_from_ast(ast, exclude)
         except Exception as e:  # malformed AST / unexpected width
             ok, msg = False, "cannot use JSON AST: %r" % (e,)
-    if ok:
+    if ok and via == "derive":
+        # the module is produced by the pdl_derive attribute macro at compile time, from the
+        # same file (the macro joins the path onto CARGO_MANIFEST_DIR: an absolute path wins)
+        res["rust"] = ('#[pdl_derive::pdl(%s)]\npub mod inner {}\npub use inner::*;\n'
+                       % json.dumps(str(pdl_path.resolve())))
+        res["derive"] = True
+    elif ok and via == "derive_inline":
+        res["rust"] = ('#[pdl_derive::pdl_inline(%s)]\npub mod inner {}\npub use inner::*;\n' % json.dumps(pdl_text))
+        res["derive"] = True
+    elif ok:
         ok, out, msg = _run_pdlc(pdlc, ["--output-format", "rust"] + excl_args + [str(pdl_path)], timeout_s)
         if ok:
             res["rust"] = out
@@ -305,7 +321,10 @@ def _write_crate(crate_dir: pathlib.Path, gens: dict, names: list[str]) -> None:
     src = crate_dir / "src"
     (src / "dispatch").mkdir(parents=True, exist_ok=True)
     (crate_dir / ".cargo").mkdir(parents=True, exist_ok=True)
-    _write_if_changed(crate_dir / "Cargo.toml", (TEMPLATE_DIR / "Cargo.toml").read_bytes())
+    toml = (TEMPLATE_DIR / "Cargo.toml").read_text()
+    if any(gens[n].get("derive") for n in names):
+        toml = toml.replace('[dependencies]\n', '[dependencies]\npdl-derive = { path = "/repo/pdl-derive" }\n')
+    _write_if_changed(crate_dir / "Cargo.toml", toml.encode())
     _write_if_changed(crate_dir / ".cargo" / "config.toml", (TEMPLATE_DIR / "cargo-config.toml").read_bytes())
     # Cargo.lock: copy the repo's lock file first (cargo prunes it afterwards); copy again
     # only when the repo's lock file changed.
